@@ -1251,6 +1251,17 @@ func (e *vOvpn) fromCase(ty int, headless bool, hb byte, src []byte) {
 		obs = fmt.Sprintf("(FErr %d)", code-1)
 	}
 	valid := vLenValid(ty, headless, len(src))
+	// the embedded length field must agree with the actual length of the wrapped key
+	if valid && (ty == 4 || ty == 5) {
+		off := 0
+		if ty == 5 {
+			off = 53
+			if !headless {
+				off = 54
+			}
+		}
+		valid = int(binary.BigEndian.Uint16(src[len(src)-2:])) == len(src)-off
+	}
 	near := false
 	for d := -2; d <= 2; d++ {
 		near = near || vLenValid(ty, headless, len(src)+d)
@@ -1271,7 +1282,7 @@ func (e *vOvpn) fromCase(ty int, headless bool, hb byte, src []byte) {
 			e.out.Fail("C18:"+name+":to-from-mismatch", "ToBytes(FromBytes(b)) != b", inp)
 		}
 		if !valid {
-			e.out.Fail("C18:"+name+":accepts-wrong-length", fmt.Sprintf("FromBytes accepted %d bytes, which no %s has", len(src), name), inp)
+			e.out.Fail("C18:"+name+":accepts-wrong-length", fmt.Sprintf("FromBytes accepted %d bytes, which no %s has (total length or embedded length field inconsistent)", len(src), name), inp)
 		}
 	}
 }
